@@ -106,6 +106,13 @@ def h_dest(ctx, mode, prefix, how):
             ctx.prop("eof_cancel_before_metadata_finishes_transaction",
                      len(fin0) == 1 and fin0[0][2] == cond,
                      lambda: {"sig": "EOF(cancel) while Metadata is missing is treated like EOF(no error)"})
+            fp0 = [p for c in more for p in c.pdus if pdu_kind(p) == "FIN"]
+            if fp0:
+                ctx.prop("finished_pdu_condition", fp0[0].condition_code == cond,
+                         lambda: {"sig": f"Finished PDU condition {fp0[0].condition_code!r} (Metadata missing)"})
+                ctx.prop("finished_pdu_fault_location", tlv_entity(fp0[0].fault_location) == bytes(who.as_bytes),
+                         lambda: {"sig": f"fault location {tlv_entity(fp0[0].fault_location)} for eofc (Metadata missing)"})
+                ctx.covered("finished_pdu_without_metadata")
             return
     ctx.covered("cancelled")
     calls = [o]
@@ -224,7 +231,9 @@ def plan(tier):
                 if pre in ("md_eof_complete", "delivered_reported") and how == "eofc":
                     continue
                 specs.append(Spec(f"dest/{mode}/{pre}/{how}", "vf.harness.c12:h_dest",
-                                  {"mode": mode, "prefix": pre, "how": how}, twin_share=0.2))
+                                  {"mode": mode, "prefix": pre, "how": how}, twin_share=0.2,
+                                  obligations=["finished_pdu_without_metadata"]
+                                  if (mode == "ack" and pre in ("idle", "fd_first") and how == "eofc") else []))
     from vf.harness.c10 import SRC_PREFIXES
     for mode in ("ack", "unack"):
         for pre in SRC_PREFIXES:
